@@ -630,7 +630,7 @@ def concurrent_callers(pk, rng, R, threads):
     nthreads, rounds = 6, 3
     R.case(True, ("concurrent-callers", threads, k, S, len(jobs)))
     R.cls("batch calls from %d Python threads on shared computers" % nthreads)
-    problems, calls = [], [0]
+    problems, calls, refused = [], [0], [0]
     lock = threading.Lock()
     barrier = threading.Barrier(nthreads)
 
@@ -652,11 +652,16 @@ def concurrent_callers(pk, rng, R, threads):
                     got = repr(e)
                 with lock:
                     calls[0] += 1
+                    if isinstance(got, str):
+                        # the binding refused the overlapping call on a shared object with some other exception (what PyO3
+                        # does by itself for `&mut self` methods once the lock is released): allowed, counted, not judged
+                        refused[0] += 1
+                        continue
                     if got != exp and len(problems) < 5:
                         if exp is ValueError:
                             msg = "a batch with a non-nucleotide entry did not raise ValueError (got %s)" % (short(repr(got), 60),)
-                        elif got is ValueError or isinstance(got, str):
-                            msg = "a valid %s batch of %d raised %r" % (what, len(exp), got)
+                        elif got is ValueError:
+                            msg = "a valid %s batch of %d raised ValueError" % (what, len(exp))
                         else:
                             bad_i = next((i for i, (a, b) in enumerate(zip(got, exp)) if a != b), min(len(got), len(exp)))
                             msg = "%s batch of %d: result %d differs from the per-sequence result of argument %d (%d results returned)" % (what, len(exp), bad_i, bad_i, len(got))
@@ -668,6 +673,7 @@ def concurrent_callers(pk, rng, R, threads):
     for t in ts:
         t.join()
     R.extra["concurrent_python_batch_calls"] = R.extra.get("concurrent_python_batch_calls", 0) + calls[0]
+    R.extra["concurrent_python_batch_calls_refused_by_the_binding"] = R.extra.get("concurrent_python_batch_calls_refused_by_the_binding", 0) + refused[0]
     for t, r, ji, msg in problems[:2]:
         R.violate("py.batch.concurrent_callers", "with %d Python threads calling the same computers (thread %d, round %d, job %d): %s" % (nthreads, t, r, ji, msg),
                   {"what": "concurrent batch calls", "k": k, "S": S, "python_threads": nthreads, "threads": threads, "job": ji})
@@ -1101,6 +1107,9 @@ def main():
             merged.sample(s)
         for k, nn in r["classes"].items():
             merged.cls(k, nn)
+        for k, nn in r.get("extra", {}).items():
+            if k.startswith("concurrent_python_batch_calls"):
+                merged.extra[k] = merged.extra.get(k, 0) + nn
         merged.extra.setdefault("rayon_num_threads_used", [])
         if threads not in merged.extra["rayon_num_threads_used"]:
             merged.extra["rayon_num_threads_used"].append(threads)
